@@ -263,9 +263,9 @@ class C11(Property):
 
     # ------------------------------------------------------------------ case generation
     def cases(self, rng: random.Random, tier: str, deep: bool) -> Iterator[Dict[str, Any]]:
-        scale = 8 if deep else 1
-        plan = [("hmmresult", 500), ("nrpspks", 260), ("hmmdet", 300), ("sideload", 400), ("hmmer", 400),
-                ("tta", 250), ("runmod", 24)]
+        scale = 6 if deep else 1
+        plan = [("hmmresult", 1500), ("nrpspks", 600), ("hmmdet", 350), ("sideload", 1500), ("hmmer", 1500),
+                ("tta", 600), ("runmod", 24)]
         for kind, n in plan:
             if kind == "runmod":
                 yield from self.all_runmod()
